@@ -1084,7 +1084,7 @@ def run(ctx):
     tick(ctx, "trace_validation", t0)
     t0 = time.time()
     whole = [r[3] for k, r in results if k == "sel"] + [x for k, r in results if k == "rec" for x in (r[4], r[5])]
-    run_level_trace(ctx, "C07", whole, 600000 if thorough else 30000)
+    run_level_trace(ctx, "C07", whole, 300000 if thorough else 30000)
     tick(ctx, "run_level_trace", t0)
     ctx.cov["distinct_nontrivial"] = len(sel_cases) + len(rec_cases)
     ctx.cov["recursive_worlds_exported"] = len(rec_cases)
